@@ -216,7 +216,7 @@ impl Prop for C15 {
     }
 
     fn runs(tier: Tier) -> u64 {
-        tier.pick(12_000, 1_000_000)
+        tier.pick(40_000, 2_000_000)
     }
 
     fn generate(r: &mut Rng, _tier: Tier, _idx: u64) -> Scn {
